@@ -92,3 +92,12 @@ package unixsocket
 //@ func pkg/unixsocket.(*Socket).SetPassCred
 //@   trusted "setsockopt(SO_PASSCRED) through SyscallConn().Control (closure over the raw descriptor)"
 //@   pure
+
+// the control callback of SetPassCred: exactly SO_PASSCRED (16) at SOL_SOCKET (1) on the socket's own
+// descriptor, with the value the caller asked for (C19: credentials are requested on this socket, nothing else is set)
+//@ func syscall.SetsockoptInt
+//@   model "setsockopt(2) with an int value"
+//@   pure
+//@ func pkg/unixsocket.(*Socket).SetPassCred$1 props C19
+//@   arith int
+//@   callsite syscall.SetsockoptInt: assert @C19 level == 1 && opt == 16 && value == option && fd == int(caller_fd)
